@@ -11,4 +11,6 @@ import Bw.Props.C02
 #print axioms Bw.Props.C02.bsearch_sound
 #print axioms Bw.Props.C02.rangeCmp_mono
 #print axioms Bw.Props.C02.hit_exact
+#print axioms Bw.Props.C02.line_diff_sorted
+#print axioms Bw.Props.C02.edited_line_hit_exact
 #print axioms Bw.Props.C02.rules_block_local
